@@ -636,6 +636,11 @@ func (t *taskState) checkHeld(i int, po *prepOp, decoded reflect.Value) {
 		}
 	}
 	t.hold(heldVal{slot: slot, op: i, label: "the result of an earlier Unmarshal", keep: decoded})
+	// a result decoded into a fresh variable stays with the caller to the end of the run and
+	// must then still be what Unmarshal returned (re-used targets change legitimately)
+	if slot == 0 && len(t.results) < 48 {
+		t.results = append(t.results, keptResult{i: i, po: po, out: decoded, snap: world.Clone(decoded.Elem())})
+	}
 }
 
 // hold remembers a value; the caller holds on to the 24 most recent ones.
